@@ -144,6 +144,9 @@ func (p *HTTPProxy) ServeHTTP(w http.ResponseWriter, r *http.Request) {
 		Scheme: t.URL.Scheme,
 		Host:   t.URL.Host,
 		Path:   r.URL.Path,
+		// keep the client's percent-encoding: the raw path is rewritten
+		// alongside the path (empty means "encode Path the default way")
+		RawPath: r.URL.RawPath,
 	}
 	if t.URL.RawQuery == "" || r.URL.RawQuery == "" {
 		targetURL.RawQuery = t.URL.RawQuery + r.URL.RawQuery
@@ -163,6 +166,12 @@ func (p *HTTPProxy) ServeHTTP(w http.ResponseWriter, r *http.Request) {
 			targetURL.Path = "/" + targetURL.Path
 		}
 	}
+	if t.StripPath != "" && strings.HasPrefix(targetURL.RawPath, t.StripPath) {
+		targetURL.RawPath = targetURL.RawPath[len(t.StripPath):]
+		if !strings.HasPrefix(targetURL.RawPath, "/") {
+			targetURL.RawPath = "/" + targetURL.RawPath
+		}
+	}
 
 	if t.PrependPath != "" {
 		targetURL.Path = t.PrependPath + targetURL.Path
@@ -170,6 +179,12 @@ func (p *HTTPProxy) ServeHTTP(w http.ResponseWriter, r *http.Request) {
 		// section 5.3 of RFC7230 (https://tools.ietf.org/html/rfc7230#section-5.3)
 		if !strings.HasPrefix(targetURL.Path, "/") {
 			targetURL.Path = "/" + targetURL.Path
+		}
+		if targetURL.RawPath != "" {
+			targetURL.RawPath = t.PrependPath + targetURL.RawPath
+			if !strings.HasPrefix(targetURL.RawPath, "/") {
+				targetURL.RawPath = "/" + targetURL.RawPath
+			}
 		}
 	}
 
